@@ -1129,6 +1129,8 @@ class Duration(AnyAtomicType):
 
         Ref: https://www.w3.org/TR/2012/REC-xmlschema11-2-20120405/#duration
         """
+        if isinstance(other, UntypedAtomic):
+            other = self.fromstring(other.value)
         if not isinstance(other, self.__class__):
             raise TypeError("wrong type %r for operand %r" % (type(other), other))
 
